@@ -1,8 +1,10 @@
 package c16
 
 import (
+	"math"
 	"reflect"
 	"regexp"
+	"strconv"
 	"strings"
 
 	"verif/mc/engine"
@@ -20,6 +22,9 @@ func init() {
 	engine.RegisterSignature("c16-slice-setlen-unaddressable", sigSetLen)
 	engine.RegisterSignature("c16-delete-non-index-stack-overflow", sigLethal)
 	engine.RegisterSignature("c16-passback-rebuilt-elementwise", sigPassbackCopy)
+	engine.RegisterSignature("c16-map-method-name-write-dropped", sigMethodNameWrite)
+	engine.RegisterSignature("c16-store-negative-fraction-truncated", sigNegFraction)
+	engine.RegisterSignature("c16-store-2p63-2p64-wraps", sigStoreWraps)
 }
 
 func typeByName(name string) reflect.Type {
@@ -255,4 +260,55 @@ func sigPassbackCopy(m *engine.Mismatch) bool {
 	c := m.Aux["component"]
 	want, ok := m.Aux["copy."+c]
 	return ok && m.Observed == c+"="+want
+}
+
+// sigMethodNameWrite accepts: on the named map NM (method Total) without an
+// entry "Total", the script writes c.Total = v; the write completes and nothing
+// is stored (the method property of mode 0o110 makes goMapDefineOwnProperty
+// refuse silently). Nothing else is wrong in the transition.
+func sigMethodNameWrite(m *engine.Mismatch) bool {
+	if !strings.HasPrefix(m.Aux["container"], "NM(") || !strings.HasPrefix(m.Aux["op"], "c[Total]=") || m.Aux["outcome"] != "ok" {
+		return false
+	}
+	return m.Observed == m.Aux["op"]+": write completed but Total is absent"
+}
+
+func storeSink(m *engine.Mismatch) bool {
+	return (m.Aux["sink"] == "slice-elem" || m.Aux["sink"] == "map-elem") && strings.HasPrefix(m.Aux["component"], "model ")
+}
+
+// sigNegFraction accepts: a store into an integer-kinded element of a bridged
+// map/slice of a NEGATIVE number with a fraction completes and stores the
+// truncated value (toReflectValue tests frac > 0); expected was a loud failure.
+func sigNegFraction(m *engine.Mismatch) bool {
+	if !storeSink(m) || strings.HasPrefix(m.Aux["width"], "float") {
+		return false
+	}
+	v, err := strconv.ParseFloat(m.Aux["value"], 64)
+	if err != nil || v >= 0 || v == math.Trunc(v) {
+		return false
+	}
+	t := math.Trunc(v)
+	if strings.HasPrefix(m.Aux["width"], "uint") && t != 0 {
+		return false
+	}
+	return strings.HasSuffix(m.Expected, "=loud") &&
+		strings.HasSuffix(m.Observed, "=ok:"+m.Aux["width"]+"("+strconv.FormatFloat(t+0, 'f', 0, 64)+")")
+}
+
+// sigStoreWraps accepts: exactly 2^63 stored into an int/int64 element gives
+// MinInt64, exactly 2^64 into a uint/uint64 element gives 2^63 (the upper range
+// checks of toReflectValue use > against constants that are 2^63 and 2^64).
+func sigStoreWraps(m *engine.Mismatch) bool {
+	if !storeSink(m) || !strings.HasSuffix(m.Expected, "=loud") {
+		return false
+	}
+	w := m.Aux["width"]
+	switch {
+	case (w == "int" || w == "int64") && m.Aux["value"] == "9.2233720368547758e+18":
+		return strings.HasSuffix(m.Observed, "=ok:"+w+"(-9223372036854775808)")
+	case (w == "uint" || w == "uint64") && m.Aux["value"] == "1.8446744073709552e+19":
+		return strings.HasSuffix(m.Observed, "=ok:"+w+"(9223372036854775808)")
+	}
+	return false
 }
